@@ -56,7 +56,7 @@ func reportSeq(k *mon.Case, cfg poolCfg, ops []*op, x *exec) {
 func runRandomSeq(k *mon.Case, c *mon.Ctx, ilv bool) {
 	r := k.R
 	cfg := randCfg(r)
-	g := &gen{r: r, cfg: cfg, nSend: 1 + r.Intn(5), ilv: ilv, reorgPct: 14}
+	g := &gen{r: r, cfg: cfg, nSend: 1 + r.Intn(5), ilv: ilv, reorgPct: 14, high: r.Intn(6) == 0}
 	if ilv {
 		g.reorgPct = 30
 		if r.Intn(2) == 0 { // room for processable runs to build up
